@@ -256,7 +256,7 @@ def driver_part(ck: Check):
                 ex = 0.0
                 for a, b in zip(defs, defs[1:]):
                     if a > 1e-12:
-                        ex = max(ex, max(0.0, abs(math.log2(b / a) - (N + 1)) - 2.0))
+                        ex = max(ex, max(0.0, (N + 1 - 2.0) - math.log2(b / a)))
                 if ex > 0:
                     ck.violation("_lie_transform|partial|not-composition-with-own-coordinate-change",
                                  f"shape {kinds}: |H_new(z) - H_old(Phi(z))| = {defs} does not scale like r^{N + 1}", {"shape": kinds})
@@ -330,7 +330,7 @@ def pipeline_part(ck: Check, rnd):
             ex = 0.0
             for a, b in zip(seq, seq[1:]):
                 if a > 1e-12:
-                    ex = max(ex, max(0.0, abs(math.log2(b / a) - expo) - 2.0))
+                    ex = max(ex, max(0.0, (expo - 2.0) - math.log2(b / a)))   # one-sided: decaying faster than the law is fine
             return ex
         cs.obs(t, "composition_law_excess", excess(comp, N + 1))
         cs.obs(t, "inverse_law_excess", excess(invd, N + 1))
